@@ -2,6 +2,7 @@ import UmProofs.ProxyMeta
 import UmProofs.ReplEpochInv
 import UmProofs.ReplEpochSeq
 import UmProofs.ReplEpochMap
+import UmProofs.SetMetaConcLin
 /-!
 # C05 — A proxy installs metadata iff it is strictly newer, atomically
 
@@ -12,6 +13,9 @@ lock) is an interleaving semantics over its four atomic steps for any number of 
 callers (`Um.ReplEpoch`).
 
 * `C05_cluster`, `C05_cluster_monotone`, `C05_cluster_same_message` — SETCLUSTER, all message lists.
+* `C05_cluster_concurrent`, `C05_cluster_concurrent_step` — `set_meta` *without* assuming the mutex:
+  any number of concurrent callers interleaved at the six scheduling points of hook H4, the lock as a
+  shared variable; every execution is linearizable at lock acquisition.
 * `C05_read_skew`, `C05_reader_epoch_first` — the two stores of `set_meta` and what a lock-free
   reader can see between them.
 * `C05_repl_step` — per atomic step, in every state, whatever the flags: the installed epoch only
@@ -175,6 +179,174 @@ theorem C05_reader_epoch_first {C : Type} (announce : Bytes) (s0 : State C)
 epoch: the trace of one accepted message read at positions 0 (snapshot) and 2 (epoch) -/
 example : let tr := (⟨⟨0, 10⟩, 0, 0⟩ : GState Nat) :: microTrace [49] ⟨⟨0, 10⟩, 0, 0⟩ 0 [some (⟨1, false, [], 11⟩, true)]
     (tr[0]?.map (·.st.snap), tr[2]?.map (·.st.epoch)) = (some 10, some 1) := by decide
+
+/-! ## SETCLUSTER, concurrent callers -/
+
+/-- **C05 (cluster metadata), all interleavings of any number of concurrent callers of `set_meta`.**
+The mutex is not assumed, it is modelled (`owner`).  For every schedule `ls` from a proxy with epoch
+`e0` and snapshot `c0` there is a sequential order — `log`, the callers in the order in which they
+took the lock — such that:
+
+1. `log` lists, once each and with their own messages, exactly the callers that have taken the lock;
+2. a caller that returned without ever taking the lock was answered `NOT_MY_META`, and its message is
+   refused with `NOT_MY_META` by the sequential machine in *every* state (it can be put anywhere in
+   the order without changing anything);
+3. whenever the lock is free (in particular at quiescence) the shared pair `(epoch, snapshot)` is
+   exactly what the sequential machine `Um.ProxyMeta.run` leaves after the commands of `log`, every
+   logged caller has returned, and its reply is the reply of the sequential run at its position;
+   hence (by `C05_cluster`) it was answered `OK`/`WARNING` iff its message was forced or strictly newer
+   than the epoch installed at its linearization point — the state after the callers before it;
+4. if no caller is forced, the installed epoch is never below `e0` — not even inside a critical section. -/
+theorem C05_cluster_concurrent {C : Type} (announce : Bytes) (e0 : Nat) (c0 : C)
+    (ls : List (SetMetaConc.Label C)) (s : SetMetaConc.Sys C)
+    (hrun : SetMetaConc.replay announce (SetMetaConc.Sys.init e0 c0) ls = some s) :
+    ∃ log : List (SetMetaConc.Entry C),
+      (log.map (·.1)).Nodup ∧
+      (∀ t ∈ log, ∃ c : SetMetaConc.Caller C, s.callers[t.1]? = some c ∧ c.msg = t.2.1 ∧ c.cfgOk = t.2.2) ∧
+      (∀ (i : Nat) (c : SetMetaConc.Caller C), s.callers[i]? = some c →
+        (SetMetaConc.acquired c.pc ↔ i ∈ log.map (·.1))) ∧
+      (∀ (i : Nat) (c : SetMetaConc.Caller C) (r : ProxyMeta.Reply), s.callers[i]? = some c →
+        i ∉ log.map (·.1) → c.pc = .done r →
+        r = .notMyMeta ∧ ∀ st : State C, handle announce st (some (c.msg, c.cfgOk)) = (st, .notMyMeta)) ∧
+      (s.owner = none →
+        (⟨s.epoch, s.snap⟩ : State C) = (run announce ⟨e0, c0⟩ (SetMetaConc.cmds log)).1 ∧
+        ∀ (k : Nat) (t : SetMetaConc.Entry C), log[k]? = some t →
+          ∃ (c : SetMetaConc.Caller C) (r : ProxyMeta.Reply), s.callers[t.1]? = some c ∧ c.pc = .done r ∧
+            (run announce ⟨e0, c0⟩ (SetMetaConc.cmds log)).2[k]? = some r ∧
+            ((r = .ok ∨ r = .warn) ↔
+              Accepts announce (run announce ⟨e0, c0⟩ (SetMetaConc.cmds (log.take k))).1.epoch t.2.1)) ∧
+      ((∀ c ∈ s.callers, c.msg.force = false) → e0 ≤ s.epoch) := by
+  obtain ⟨log, hg⟩ := SetMetaConc.replayG_of_replay (announce := announce) [] hrun
+  have inv := SetMetaConc.linv_replayG (SetMetaConc.linv_init announce e0 c0) hg
+  refine ⟨log, inv.nodup, inv.entries, inv.mem, ?_, ?_, ?_⟩
+  · intro i c r hc hnot hpc
+    have hna : ¬ SetMetaConc.acquired c.pc := fun h => hnot ((inv.mem i c hc).mp h)
+    obtain ⟨_, h2, h3⟩ := inv.hosts i c hc
+    have hr : r = .notMyMeta := by
+      cases r with
+      | ok => exact absurd (Or.inr (Or.inl hpc)) hna
+      | warn => exact absurd (Or.inr (Or.inr (Or.inl hpc))) hna
+      | oldEpoch => exact absurd (Or.inr (Or.inr (Or.inr hpc))) hna
+      | notMyMeta => rfl
+      | parseErr => exact absurd hpc h3
+    subst hr
+    refine ⟨rfl, ?_⟩
+    intro st
+    rw [handle_some]
+    simp [h2 hpc]
+  · intro hfree
+    obtain ⟨hst, hcm⟩ := inv.free hfree
+    refine ⟨hst, ?_⟩
+    intro k t hk
+    obtain ⟨c, r, h1, h2, h3⟩ := hcm k t hk
+    refine ⟨c, r, h1, h2, h3, ?_⟩
+    -- position k of the sequential run, by `C05_cluster`
+    have hklt : k < log.length := by
+      obtain ⟨h, _⟩ := List.getElem?_eq_some_iff.mp hk; exact h
+    have hsplit : log = log.take k ++ t :: log.drop (k + 1) := by
+      obtain ⟨_, hget⟩ := List.getElem?_eq_some_iff.mp hk
+      rw [← hget]
+      simp
+    have hc := C05_cluster announce (⟨e0, c0⟩ : State C) (SetMetaConc.cmds (log.take k))
+      (SetMetaConc.cmds (log.drop (k + 1))) t.2.1 t.2.2
+    simp only at hc
+    obtain ⟨hidx, hiff, _⟩ := hc
+    have hcmds : SetMetaConc.cmds log =
+        SetMetaConc.cmds (log.take k) ++ some (t.2.1, t.2.2) :: SetMetaConc.cmds (log.drop (k + 1)) := by
+      conv => lhs; rw [hsplit]
+      simp [SetMetaConc.cmds]
+    have hlen : (SetMetaConc.cmds (log.take k)).length = k := by
+      simp [SetMetaConc.cmds]; omega
+    rw [← hcmds, hlen] at hidx
+    have h3' : (run announce ⟨e0, c0⟩ (SetMetaConc.cmds log)).2[k]? = some r := h3
+    rw [hidx] at h3'
+    cases h3'
+    exact hiff
+  · intro hnf
+    have hlognf : ∀ p ∈ SetMetaConc.cmds log, ∀ m b, p = some (m, b) → m.force = false := by
+      intro p hp m b hpm
+      obtain ⟨t, ht, htp⟩ := List.mem_map.mp hp
+      obtain ⟨c, hc, hm, _⟩ := inv.entries t ht
+      rw [hpm] at htp
+      cases htp
+      rw [← hm]
+      exact hnf c (List.mem_of_getElem? hc)
+    cases ho : s.owner with
+    | none =>
+      obtain ⟨hst, _⟩ := inv.free ho
+      have := run_epoch_mono announce (⟨e0, c0⟩ : State C) (SetMetaConc.cmds log) hlognf
+      have he : s.epoch = (run announce ⟨e0, c0⟩ (SetMetaConc.cmds log)).1.epoch := by
+        show (⟨s.epoch, s.snap⟩ : State C).epoch = _
+        rw [hst]; rfl
+      simp only at this
+      omega
+    | some i =>
+      obtain ⟨pre, c, hlog, hc, hin, _, h1, h2, h3, h4⟩ := inv.held i ho
+      have hpre : ∀ p ∈ SetMetaConc.cmds pre, ∀ m b, p = some (m, b) → m.force = false := by
+        intro p hp m b hpm
+        apply hlognf p _ m b hpm
+        rw [hlog]
+        simp only [SetMetaConc.cmds, List.map_append, List.mem_append]
+        exact Or.inl hp
+      have hS := run_epoch_mono announce (⟨e0, c0⟩ : State C) (SetMetaConc.cmds pre) hpre
+      simp only at hS
+      have hcf : c.msg.force = false := hnf c (List.mem_of_getElem? hc)
+      rcases hin with hp | hp | hp | hp
+      · have := h1 (Or.inl hp)
+        have he : s.epoch = (SetMetaConc.seqRun announce ⟨e0, c0⟩ pre).1.epoch := by
+          show (⟨s.epoch, s.snap⟩ : State C).epoch = _
+          rw [this]
+        unfold SetMetaConc.seqRun at he
+        omega
+      · have := h1 (Or.inr hp)
+        have he : s.epoch = (SetMetaConc.seqRun announce ⟨e0, c0⟩ pre).1.epoch := by
+          show (⟨s.epoch, s.snap⟩ : State C).epoch = _
+          rw [this]
+        unfold SetMetaConc.seqRun at he
+        omega
+      · have he := (h2 hp).1
+        unfold SetMetaConc.seqRun at he
+        omega
+      · have hst := h3 hp
+        have hacc := h4 (by rw [hp]; intro h; cases h)
+        have he : s.epoch = c.msg.epoch := by
+          show (⟨s.epoch, s.snap⟩ : State C).epoch = _
+          rw [hst]; rfl
+        rcases hacc.2 with h | h
+        · rw [hcf] at h; cases h
+        · unfold SetMetaConc.seqRun at h
+          omega
+
+example : (SetMetaConc.replay (C := Nat) [49] (SetMetaConc.Sys.init 0 0)
+    [.spawn ⟨1, false, [], 7⟩ true, .spawn ⟨2, false, [], 8⟩ true, .run 0, .run 1, .run 1, .run 1, .run 1, .run 1,
+     .run 1, .run 0, .run 0]).map (fun s => (s.epoch, s.snap, s.callers.map (·.pc))) =
+    some (2, 8, [.done .oldEpoch, .done .ok]) := by decide
+
+/-- **the installed epoch never decreases without force, step by step** — in any state reachable by
+any interleaving, a step that lowers the epoch is the epoch store of a forced caller. -/
+theorem C05_cluster_concurrent_step {C : Type} (announce : Bytes) (e0 : Nat) (c0 : C)
+    (ls : List (SetMetaConc.Label C)) (s s' : SetMetaConc.Sys C) (l : SetMetaConc.Label C)
+    (hrun : SetMetaConc.replay announce (SetMetaConc.Sys.init e0 c0) ls = some s)
+    (hstep : SetMetaConc.step? announce s l = some s') (hlt : s'.epoch < s.epoch) :
+    ∃ (i : Nat) (c : SetMetaConc.Caller C), l = .run i ∧ s.callers[i]? = some c ∧ c.pc = .epochStore ∧
+      c.msg.force = true := by
+  obtain ⟨log, hg⟩ := SetMetaConc.replayG_of_replay (announce := announce) [] hrun
+  have inv := SetMetaConc.linv_replayG (SetMetaConc.linv_init announce e0 c0) hg
+  rcases SetMetaConc.step_pool hstep with ⟨m, b, _, he, _⟩ |
+    ⟨i, c, c', e', sn', o', hl, hci, he, hsn, ho, ha, _, hp⟩
+  · omega
+  · cases ha with
+    | epochStore hpc =>
+      refine ⟨i, c, hl, hci, hpc, ?_⟩
+      have hown := SetMetaConc.owner_of_inside inv hci (Or.inr (Or.inr (Or.inl hpc)))
+      obtain ⟨pre, co, _, hc, _, _, _, h2, _, h4⟩ := inv.held i hown
+      rw [hci] at hc; cases hc
+      have hacc := h4 (by rw [hpc]; intro h; cases h)
+      have hep := (h2 hpc).1
+      rcases hacc.2 with h | h
+      · exact h
+      · omega
+    | _ => omega
 
 /-! ## SETREPL -/
 
